@@ -1,14 +1,14 @@
-(* C20 — iterator helpers enumerate every item once, in order, with valid
-   addresses.  Statements only; proofs are in proofs/IterProps.v. *)
-From Coq Require Import List Arith Sorting.Sorted.
-From D2P Require Import Str Err Iter IterFacts IterProps.
+(* C20 — iterator helpers enumerate every item once, in order, with valid addresses.
+   Statements only (copied from the lemma libraries); every proof is a bare
+   `exact`; see the cited files in coq/proofs for the proofs. *)
+From Coq Require Import List NArith ZArith Bool Arith Sorting.Sorted Sorting.Permutation.
+From D2P Require Import Str Err Iter IterFacts IterProps MiscFacts.
 Import ListNotations.
+Local Open Scope nat_scope.
 
-(* for every nested list whose items above depth d are lists (any widths,
-   empty and ragged included) and every depth 1..5: enum_at_depth succeeds,
-   yields exactly the valid addresses of length d, each once, in strictly
-   increasing lexicographic order *)
-Theorem C20_complete_sorted : forall (A : Type) (t : rose A) (d : nat),
+(* for every nested list whose items above depth d are lists (any widths, empty and ragged included) and every depth 1..5: enum_at_depth succeeds, yields exactly the valid addresses of length d, each once, in strictly increasing lexicographic order *)
+Theorem C20_complete_sorted :
+  forall (A : Type) (t : rose A) (d : nat),
   1 <= d <= 5 -> wf (pred d) t ->
   exists l, enum_at_depth t d = Ok l
     /\ (forall addr x, In (addr, x) l <-> (length addr = d /\ index t addr = Some x))
@@ -18,19 +18,23 @@ Proof. exact c20_complete_sorted. Qed.
 Print Assumptions C20_complete_sorted.
 
 (* indexing the input with a yielded address returns the yielded item *)
-Theorem C20_index : forall (A : Type) (t : rose A) (d : nat) l,
+Theorem C20_index :
+  forall (A : Type) (t : rose A) (d : nat) l,
   1 <= d <= 5 -> wf (pred d) t -> enum_at_depth t d = Ok l ->
   forall addr x, In (addr, x) l -> index t addr = Some x.
 Proof. exact c20_index. Qed.
 Print Assumptions C20_index.
 
-(* iter_at_depth and the named helpers yield the same items in the same order *)
-Theorem C20_iter : forall (A : Type) (t : rose A) (d : nat),
+(* iter_at_depth yields the same items in the same order *)
+Theorem C20_iter :
+  forall (A : Type) (t : rose A) (d : nat),
   iter_at_depth t d = (r <- enum_at_depth t d ;; Ok (map snd r)).
 Proof. exact c20_iter. Qed.
 Print Assumptions C20_iter.
 
-Theorem C20_wrappers : forall (A : Type) (t : rose A),
+(* the named helpers are the instances for depths 1..4 *)
+Theorem C20_wrappers :
+  forall (A : Type) (t : rose A),
   iter_tables t = iter_at_depth t 1 /\ iter_rows t = iter_at_depth t 2 /\
   iter_cells t = iter_at_depth t 3 /\ iter_paragraphs t = iter_at_depth t 4 /\
   enum_tables t = enum_at_depth t 1 /\ enum_rows t = enum_at_depth t 2 /\
@@ -39,8 +43,28 @@ Proof. exact c20_wrappers. Qed.
 Print Assumptions C20_wrappers.
 
 (* any other depth raises ValueError *)
-Theorem C20_bad_depth : forall (A : Type) (t : rose A) (d : nat),
+Theorem C20_bad_depth :
+  forall (A : Type) (t : rose A) (d : nat),
   d = 0 \/ 5 < d ->
   enum_at_depth t d = Err ValueError /\ iter_at_depth t d = Err ValueError.
 Proof. exact c20_bad_depth. Qed.
 Print Assumptions C20_bad_depth.
+
+(* the html map writes the label of every depth-4 address exactly once, in order, and of nothing else *)
+Theorem C20_html_map_each_address_once :
+  forall tables s,
+  IterFacts.wf 4%nat tables -> get_html_map tables = Ok s ->
+  exists addrs,
+    woven s (map par_label addrs) /\
+    NoDup addrs /\
+    Sorted.StronglySorted lex_lt addrs /\
+    (forall a, In a addrs <-> (length a = 4%nat /\ exists x, index tables a = Some x)).
+Proof. exact html_map_each_address_once. Qed.
+Print Assumptions C20_html_map_each_address_once.
+
+(* and succeeds on every 5-deep list of strings *)
+Theorem C20_html_map_total :
+  forall tables,
+  leaves_at 5 tables -> exists s, get_html_map tables = Ok s.
+Proof. exact html_map_total_leaves. Qed.
+Print Assumptions C20_html_map_total.
